@@ -33,6 +33,10 @@ type recDriver struct {
 	rows     [][]driver.Value
 	failRow  int // rows.Next fails instead of delivering row k (k == len(rows): instead of EOF), -1 never
 	failPrep bool
+	// fail the k-th Prepare (0-based), -1 never; prepCount counts the calls, faultHit records that a failure was delivered
+	failPrepAt int
+	prepCount  int
+	faultHit   bool
 }
 
 type recExec struct {
@@ -40,7 +44,7 @@ type recExec struct {
 	args  []driver.Value
 }
 
-var theDriver = &recDriver{failExec: -1, failRow: -1}
+var theDriver = &recDriver{failExec: -1, failRow: -1, failPrepAt: -1}
 var registerOnce sync.Once
 var theDB *sql.DB
 
@@ -64,6 +68,13 @@ func (c *recConn) Prepare(q string) (driver.Stmt, error) {
 	if c.d.failPrep {
 		return nil, errSQL
 	}
+	k := c.d.prepCount
+	c.d.prepCount++
+	if k == c.d.failPrepAt {
+		c.d.failPrepAt = -2
+		c.d.faultHit = true
+		return nil, errSQL
+	}
 	return &recStmt{c.d, q}, nil
 }
 func (c *recConn) Close() error              { return nil }
@@ -85,18 +96,20 @@ func (s *recStmt) Exec(args []driver.Value) (driver.Result, error) {
 	k := len(s.d.execs)
 	if k == s.d.failExec {
 		s.d.failExec = -2 // fail once; later statements would succeed if the caller carried on
+		s.d.faultHit = true
 		return nil, errSQL
 	}
 	s.d.execs = append(s.d.execs, recExec{s.q, append([]driver.Value(nil), args...)})
 	return driver.RowsAffected(1), nil
 }
 func (s *recStmt) Query(args []driver.Value) (driver.Rows, error) {
-	return &recRows{d: s.d}, nil
+	return &recRows{d: s.d, buf: make([]byte, 0, 1<<16)}, nil
 }
 
 type recRows struct {
 	d   *recDriver
 	pos int
+	buf []byte // read buffer reused for every row, as text-protocol drivers do: []byte values are only valid until the next row
 }
 
 func (r *recRows) Columns() []string { return r.d.cols }
@@ -109,6 +122,23 @@ func (r *recRows) Next(dest []driver.Value) error {
 		return io.EOF
 	}
 	copy(dest, r.d.rows[r.pos])
+	// overwrite what the previous row delivered, then hand out slices of the same buffer again
+	for i := range r.buf {
+		r.buf[i] = '#'
+	}
+	r.buf = r.buf[:0]
+	for _, v := range dest {
+		if b, ok := v.([]byte); ok {
+			r.buf = append(r.buf, b...)
+		}
+	}
+	off := 0
+	for i, v := range dest {
+		if b, ok := v.([]byte); ok {
+			dest[i] = r.buf[off : off+len(b) : off+len(b)]
+			off += len(b)
+		}
+	}
 	r.pos++
 	return nil
 }
@@ -149,6 +179,14 @@ func (g *gen) toSQL(src *hframe) {
 	theDriver.execs = nil
 	theDriver.failExec = failExec
 	theDriver.failPrep = false
+	theDriver.failPrepAt = -1
+	theDriver.prepCount = 0
+	theDriver.faultHit = false
+	if failExec >= 0 && r.P(1, 3) {
+		// the failure comes from preparing the statement instead of executing it (the k-th Prepare on the connection)
+		theDriver.failExec = -1
+		theDriver.failPrepAt = failExec
+	}
 	var err error
 	pmsg := ""
 	func() {
@@ -171,6 +209,11 @@ func (g *gen) toSQL(src *hframe) {
 		err = src.qf.ToSQL(t, fns...)
 		_ = t.Rollback()
 	}()
+	if failExec >= 0 && !theDriver.faultHit && pmsg == "" {
+		// the injected failure was never reached (the call did not prepare/execute that many statements): nothing to demand
+		g.w.Line("WN")
+	}
+	theDriver.failPrepAt = -1
 	toks := []string{"WQ", "ok", tx.Int(len(theDriver.execs))}
 	if pmsg != "" {
 		toks[1] = "P"
